@@ -67,6 +67,10 @@ CHECKS = {
    technique="TLC model checking (safety + liveness) of AnkoChan.tla pipelines under every interleaving, AnkoChanSeq.tla for the one-goroutine error forms; replay of every sequential program and repeated perturbed runs of every pipeline configuration on the real VM",
    text="The pipeline model (goroutines over buffered/unbuffered Go channels with rendezvous) is explored exhaustively for every configuration: FIFO/exactly-once per channel, delivery of everything, termination under weak fairness, no deadlock, with a value-losing spec mutant as negative control. The real interpreter runs each configuration many times under hook-injected schedule perturbation and several GOMAXPROCS and must always return the model's unique outcome (sequence and element type); all one-goroutine operation sequences (send on closed, double close, receive on closed, two-value receive) are replayed observation by observation, with and without a cancellable context.",
    note="Trusted: Go channel semantics as documented. Real schedules are sampled, not enumerated. Bounds: 0-2 (thorough 3) stages, capacity 0-2 (3), up to 3 (4) items, 3 consumer modes, 3 element types; sequences up to length 5 (6)."),
+ "C02": dict(level="model_checking", design="5 (C02), 3.5",
+   technique="TLC model checking (safety + liveness under weak fairness) of AnkoCancel.tla with wrong-design negative controls + cancellation delivered inside the verif hooks at every gate of every core x wrapper program on the real VM, observations validated by TLC",
+   text="The abstract interpreter thread (polls at statement entry, loop heads and channel waits; interrupt wrapped at function boundaries; try, ?? and deferred calls as potential swallowers) is model-checked for every stack of up to three wrappers with cancellation at any moment: no effect after the cancellation is observed, the result is the interrupt, and cancelled leads to finished. On the real interpreter the context is cancelled at the k-th gate for every k (exact instants at poll granularity) for 16 spinning/blocking cores under 21 wrappers and sampled pairs, and once asynchronously; each run must return within 5 s with 'execution interrupted' and without later script effects.",
+   note="Trusted: the hooks fire at the interpreter's polling sites (a removed hook shows as fewer instants, not as an alarm); wall-clock bound 5 s vs. measured latencies of microseconds to ~30 ms. Time inside one host Go call (including callbacks it makes) is outside the property."),
 # <<ADD>>
 }
 
